@@ -44,6 +44,20 @@ WITNESSES = {   # 3.8-valid scripts for the listed known findings (re-confirmed 
     "K-fstring-field-backslash": "print(f\"\"\"{'''a\nb'''}\"\"\")\nprint(f\"\"\"{\"a'b\" + 'c\"d'}\"\"\")\n",
 }
 
+# every syntactic slot x an assignment expression (3.8 accepts it bare only as a positional call argument), written with
+# parentheses so that the script itself is valid on 3.8
+WALRUS_SLOTS = ["d[{}]", "d[{}:2]", "d[0:{}]", "d[{}, 1]", "{{{}}}", "{{{}, 2}}", "{{1: {}}}", "{{{}: 1}}", "[{}]", "[{}, 2]", "({}, 2)",
+                "f({})", "f(1, {})", "f(k={})", "f(*[{}])", "f(**{{'k': {}}})", "[{} for i in [1]]", "[i for i in [{}]]",
+                "[i for i in [1] if {}]", "{{i: {} for i in [1]}}", "(lambda: {})()", "(lambda a={}: a)()", "{} if 1 else 2",
+                "1 if {} else 2", "1 if 0 else {}", "not {}", "-{}", "{} + 1", "1 + {}", "{} < 2", "1 < {} < 3", "{} and 1", "1 or {}",
+                "f'{{{}}}'", "f'{{1:{{{}}}}}'", "[*[{}]]", "({}).real", "f({})({})", "d[{}][{}]"]
+WALRUS_PRELUDE = """
+class _D(dict):
+    def __missing__(self, k): return 0
+d = _D()
+def f(*a, **k): return (a, sorted(k.items()))
+"""
+
 OL = re.compile(r"__ol_([a-z]+)_[a-z]+")
 
 
@@ -117,6 +131,8 @@ def programs(chk):
         add("statement-templates", c07.PRELUDE + body + "\n")
     for k, w in WITNESSES.items():
         add("known-finding-witnesses", w)
+    for slot in WALRUS_SLOTS:
+        add("assignment expression in every slot", WALRUS_PRELUDE + "r = " + slot.replace("{}", "(w := 1)") + "\nprint(ascii(r), w)\n")
     lits = list(gen_lit.fstrings(2)) + [gen_lit.random_literal(rng, 2) for _ in range(300 if big else 30)]
     rng.shuffle(lits)
     for e in lits[: (400 if big else 40)]:
